@@ -2,13 +2,13 @@ package main
 
 import (
 	"bytes"
-	"os"
 	"fmt"
 	"go/ast"
 	"go/constant"
 	"go/printer"
 	"go/token"
 	"go/types"
+	"os"
 	"sort"
 	"strings"
 
